@@ -22,18 +22,19 @@ mod verif_memory {
         kani::cover!(r != len);
         kani::cover!(r == len && len > 0);
     }
-    //@harness fns=alloc_slice<i32> level=bounded bound="buffer<=24B,all 4 misalignments,len<=8"
+    //@harness fns=alloc_slice<i32> level=bounded bound="any sub-slice of a 24 B buffer: all 4 misalignments x every length; element count <=8"
     #[kani::proof]
     #[kani::unwind(4)]
     fn alloc_slice_i32() {
         let mut buf = [0u8; 24];
         let off: usize = kani::any();
         kani::assume(off < 4);
+        let avail: usize = kani::any();
+        kani::assume(avail <= 24 - off); // any sub-slice: start misaligned by `off`, ANY length (not only 4-aligned ends)
         let n: usize = kani::any();
         kani::assume(n <= 8);
-        let avail = 24 - off;
         let base = buf.as_ptr() as usize + off;
-        let r = alloc_slice::<i32>(&mut buf[off..], n);
+        let r = alloc_slice::<i32>(&mut buf[off..off + avail], n);
         let r_some = r.is_some();
         if let Some((s, rest)) = r {
             assert!(s.len() == n);
@@ -50,6 +51,7 @@ mod verif_memory {
         }
         kani::cover!(!r_some);
         kani::cover!(r_some && n == 5 && off == 1);
+        kani::cover!(!r_some && n * 4 <= avail); // fits before alignment, not after: must be refused, not panic
     }
     //@harness fns=alloc_slice<u16>,alloc_slice<PointFlags> level=bounded bound="buffer<=16B,all misalignments,len<=8"
     #[kani::proof]
